@@ -40,7 +40,10 @@ KINDS["ctxup"] = [["bytes", ["this", ["_", "pre"], "attr"]], ["array", ["this", 
                   ["bytes", ["bin", "+", ["this", ["_", "pre"], "attr"], ["const", 1]]]]
 # counted arrays of elements that have no size: their _actualsize reads the count and only then finds out that it cannot answer
 KINDS["halfsizable"] = [["parray", B1, ["varint"]], ["parray", B1, ["cstr", "utf8"]], ["parray", ["varint"], ["pascal", B1, "utf8"]]]
-LAZY_OK = ("fixed", "ctx", "prefixed")
+# members that occupy no bytes but look at the stream where they stand: evaluated late they must still see their own place
+KINDS["observer"] = [["tell"], ["peek", B1], ["peek", ["int", 2, False, "b", "alias"]], ["rawcopy", ["bytes", 0]], ["peek", ["const", b"\xc0", None]]]
+OBSERVERS = ("tell", "peek", "rawcopy")
+LAZY_OK = ("fixed", "ctx", "prefixed", "observer")
 
 
 @st.composite
@@ -49,7 +52,7 @@ def member_lists(draw, for_lazy_wrapper=False, min_size=1, max_size=6, up=False,
     members = []
     kinds = []
     for i in range(n):
-        kind = draw(st.sampled_from(list(LAZY_OK) if for_lazy_wrapper else ["fixed", "fixed", "ctx", "prefixed", "prefixed", "unsizable", "halfsizable"] + (["ctxup", "ctxup"] if up else [])))
+        kind = draw(st.sampled_from(["fixed", "ctx", "prefixed"] if for_lazy_wrapper else ["fixed", "fixed", "ctx", "prefixed", "prefixed", "unsizable", "halfsizable", "observer"] + (["ctxup", "ctxup"] if up else [])))
         spec = draw(st.sampled_from(KINDS[kind]))
         # anonymous members: constants usually, any other kind now and then (an unnamed member is measured through its own
         # _actualsize, a named one through Renamed)
@@ -65,7 +68,8 @@ def member_lists(draw, for_lazy_wrapper=False, min_size=1, max_size=6, up=False,
 def build_input(draw, spec, params):
     if spec[0] == "struct":
         # (bytes do not depend on member names; an unnamed member that needs a value cannot be built, so name it for this purpose)
-        spec = ["struct", [[n or "anon%d" % i, sp] for i, (n, sp) in enumerate(spec[1])]]
+        # (members that only look at the stream add no bytes)
+        spec = ["struct", [[n or "anon%d" % i, sp] for i, (n, sp) in enumerate(spec[1]) if sp[0] not in OBSERVERS]]
     value = V.gen_value(draw, spec, R.top_scope(params, "build"))
     try:
         return R.ref_build(spec, value, params)
@@ -294,8 +298,12 @@ def array_oracle(ctx):
         else:
             lc, ec = l.value, list(e.value)
         for op in history:
-            before = ls.tell()
             k = op[0]
+            if k == "seek":
+                # the stream is the caller's again: it may stand anywhere (on an element's first byte, say) when the next access comes
+                ls.seek(min(start + op[1], len(ls.getvalue())))
+                continue
+            before = ls.tell()
             if k == "index":
                 if op[1] >= len(ec):
                     continue
@@ -333,7 +341,15 @@ def array_cases(draw):
     if data is None:
         data = draw(st.binary(max_size=16))
     nested = draw(st.integers(1, params["cnt"])) if params["cnt"] and draw(st.booleans()) else None
-    return [elem, count, params, data, draw(st.integers(0, 3)), draw(histories([], arrays=True, count=params["cnt"])), nested]
+    history = draw(histories([], arrays=True, count=params["cnt"]))
+    if draw(st.booleans()):
+        moved = []
+        for op in history:
+            if draw(st.integers(0, 2)) == 0:
+                moved.append(["seek", draw(st.integers(0, 12))])
+            moved.append(op)
+        history = moved
+    return [elem, count, params, data, draw(st.integers(0, 3)), history, nested]
 
 
 def campaign_lazyarray(ctx):
